@@ -385,8 +385,8 @@ func isFloat(t types.Type) bool {
 func (ex *Exec) site(fn *ssa.Function, pos token.Pos) string {
 	p := ex.prog.Fset.Position(pos)
 	f := p.Filename
-	if i := strings.Index(f, "/repo/"); i >= 0 {
-		f = f[i+6:]
+	if strings.HasPrefix(f, ex.eng.repoDir+"/") {
+		f = f[len(ex.eng.repoDir)+1:]
 	} else if i := strings.Index(f, "/pkg/mod/"); i >= 0 {
 		f = f[i+9:]
 	}
